@@ -292,7 +292,6 @@ Section Merge.
   Hypothesis Hprev : G prev = Some (BSimple pops (Some blk)).
   Hypothesis Hblk : G blk = Some bb.
   Hypothesis HS_closed : forall i b x, Lv i -> G' i = Some b -> In x (outgoing b) -> Lv x.
-  Hypothesis HS_prev : forall i, Lv i -> i <> blk -> i <> prev.
   Hypothesis HG'_other : forall i, Lv i -> i <> blk -> G' i = option_map (map_out rd) (G i).
   Hypothesis HG'_blk : Lv blk -> G' blk = Some (map_out rd (set_ops bb (pops ++ b_ops bb))).
   Hypothesis H_noedge : forall i b, Lv i -> G i = Some b -> In blk (outgoing b) -> blk = prev.
@@ -413,4 +412,8 @@ Section Merge.
     - eapply merge_fwd; [exact St|exact Hh|apply mr_same; assumption].
     - eapply merge_bwd; [exact St|exact Hh|apply mr_same; assumption].
   Qed.
+  Theorem merge_equiv :
+    (Lv blk -> equiv_from env G prev G' blk) /\
+    (forall i, Lv i -> i <> blk -> equiv_from env G i G' i).
+  Proof. split; [exact merge_equiv_prev|exact merge_equiv_same]. Qed.
 End Merge.
